@@ -34,6 +34,7 @@ RULE = ("exhaustive over abort points: for every scenario of a fixed family (opt
         "of two to four steps, also re-running a step object; nested plans of depth 2 (outer <= 2 x inner <= 2 evaluations) and "
         "depth 3, with failures, budget stops and empty trackers (NESTED_OPTIMIZER_FAILED) inside the inner, middle and outer run; "
         "nested plans that had another parent before (constructed with parent=, or first nested under another outer plan); "
+        "nested plans on their own OptimizerContext (observers on the outer context only / on both); "
         "BasicOptimizer with its abort and results callbacks, also one object run twice) and handler/observer layouts (0-3 handlers per plan level, 0-2 "
         "observers registered for all or for some event types), EVERY index k of the unaborted delivery log (each delivery to a "
         "handler or observer and each evaluator call) is used as the abort point, plus k = none; thorough adds seeded random "
@@ -61,7 +62,7 @@ BASIC_RERUN = True
 EV = c14.EV
 USER_ABORT = 4
 CALL = -1
-OBS_BASE, ABORT_CB, RESULTS_CB, STALE_BASE = 40, 50, 51, 60
+OBS_BASE, ABORT_CB, RESULTS_CB, STALE_BASE, INNER_OBS = 40, 50, 51, 60, 70
 ALL_EVENTS = [1, 2, 3, 4, 5, 6]
 
 
@@ -213,7 +214,17 @@ def _scenario(case, k):
             stale = Plan(ctx)
             for i in range(max(1, case["plans"][0])):
                 stale.add_handler("verifrec", tag=STALE_BASE + i, world=w)
-        plans = [Plan(ctx) if (j == 0 or reparent != "ctor") else Plan(ctx, parent=stale) for j, _ in enumerate(case["plans"])]
+        # innerctx: the nested plans live on their OWN OptimizerContext (own evaluator callable forwarding to the same
+        # recording evaluator); observers are called by the ROOT plan, i.e. those of the outer context -- "both" also
+        # registers observers (ids 70+) on the inner context, which must never be called
+        ictx = ctx
+        if case.get("innerctx"):
+            ictx = OptimizerContext(evaluator=lambda v, c: evaluator(v, c), plugin_manager=pm)
+            if case["innerctx"] == "both":
+                for et in EventType:
+                    ictx.add_observer(et, lambda ev: w.deliver(INNER_OBS, ev))
+        plans = [Plan(ctx) if j == 0 else (Plan(ictx, parent=stale) if reparent == "ctor" else Plan(ictx))
+                 for j, _ in enumerate(case["plans"])]
         nsteps, trackers = {}, {}
         for j, p in enumerate(plans):
             if j > 0:
@@ -605,6 +616,11 @@ def scenario_family(tier):
         pick = {n: v for n in [x[0] for x in out if x[0].startswith("nested")] for v in ("two-outer",)}
         out += [(f"{n}+reparent-ctor", s, b) for n, s, b in out if n in pick]
     out += [(f"{n}+reparent-{pick[n]}", s, b) for n, s, b in out if n in pick and "+" not in n]
+    # nested plans on their own OptimizerContext (observers on the outer context only / on both)
+    ipick = {"nested-2x2": "outer-only", "nested-budget-toofew": "both", "nested3-2x2x1": "outer-only", "nested-no-result": "both"}
+    if tier == "thorough":
+        ipick = {x[0]: ("both" if i % 2 else "outer-only") for i, x in enumerate(out) if x[0].startswith("nested") and "+" not in x[0]}
+    out += [(f"{n}+innerctx-{ipick[n]}", s, b) for n, s, b in out if n in ipick]
     return out
 
 
@@ -695,6 +711,8 @@ def gen_cases(tier, rng):
             base = {"name": name, "plans": plans[:levels], "observers": observers, "steps": steps, "basic": basic}
             if "+reparent-" in name:
                 base["reparent"] = name.split("+reparent-")[1]
+            if "+innerctx-" in name:
+                base["innerctx"] = name.split("+innerctx-")[1]
             D = _scenario({**base, "k": None}, None)["log"]
             n = len(D)
             yield {**base, "k": None}
